@@ -158,8 +158,12 @@ class MemInterp(TriInterp):
                     if q is not None:
                         out.append((q, pos if val else not pos))
                 return out
-        # opaque integers: comparisons are unknown (fork)
+        # opaque integers: comparisons are unknown (fork) - except of a
+        # number with itself
         if l.kind in ("oint", "obyte") or r.kind in ("oint", "obyte"):
+            if l is r and isinstance(op, (ast.Lt, ast.LtE, ast.Gt, ast.GtE,
+                                          ast.Eq, ast.NotEq)):
+                return [(p, isinstance(op, (ast.LtE, ast.GtE, ast.Eq)))]
             return [(p, None)]
         if isinstance(op, (ast.In, ast.NotIn)) and l.kind == "obyte":
             return [(p, None)]
